@@ -30,10 +30,13 @@ def getVectorRexPrefix (memDisp : Bool) (m r : Nat) : Nat :=
 
 /-- `get_rex_prefix(all_instr, m, r)`: sets `hex.is_w0`, returns the prefix value. -/
 def getRexPrefix (s : Instr) (m r : Operand) : Instr × Nat :=
-  let isW0 := !((m.reg &&& c_MODE_MASK) < c_reg64)
+  -- (the base register of a memory operand says nothing about the operand size)
+  let isW0 := !(((if s.memDisp then r.reg else m.reg) &&& c_MODE_MASK) < c_reg64)
   let s := { s with hex := { s.hex with isW0 := isW0 } }
   if (m.reg &&& c_MODE_MASK) == c_mmx64 || (r.reg &&& c_MODE_MASK) == c_mmx64 then
-    (s, getVectorRexPrefix s.memDisp m.reg r.reg)
+    let v := getVectorRexPrefix s.memDisp m.reg r.reg
+    -- the index register of the memory operand is part of the x64 extended set
+    (s, if m.index != c_reg_none && band m.index c_REG_RB then v ||| c_rex_ ||| c_rex_x else v)
   else
     let rm := if s.kw.any then overrideOpdSize s.kw m.reg else m.reg
     let rex := 0
